@@ -42,7 +42,7 @@ func addReinitParticipant(w *World, old int) (int, error) {
 // variants of genuine messages of a signing batch (these parts belong to the
 // C09 and C10 checks: verification must be back on after a reinit).
 func runC20(w *World, tier string, advMode string) (bool, interface{}) {
-	prop := map[string]string{"": "C20", "c09": "C09", "c10": "C10", "c04": "C04", "c14": "C14", "c02": "C02"}[advMode]
+	prop := map[string]string{"": "C20", "c09": "C09", "c10": "C10", "c04": "C04", "c14": "C14", "c02": "C02", "c15": "C15"}[advMode]
 	n, t := pickNT(w, tier)
 	if n > 4 && tier != "thorough" {
 		n = 4
@@ -123,6 +123,15 @@ func runC20(w *World, tier string, advMode string) (bool, interface{}) {
 				var req requests.DKGProposalDealConfirmationRequest
 				if json.Unmarshal(m.Data, &req) == nil && string(req.Deal) == "self-confirm" {
 					continue
+				}
+			}
+			if m.Event == "event_dkg_master_key_confirm_received" {
+				// ... and its key announcements carry no public polynomial: the answer to
+				// the reinit operation is the only source of it
+				var req requests.DKGProposalMasterKeyConfirmationRequest
+				if json.Unmarshal(m.Data, &req) == nil {
+					req.PubPolyBz = nil
+					m.Data, _ = json.Marshal(req)
 				}
 			}
 			f = append(f, m)
@@ -295,6 +304,31 @@ func runC20(w *World, tier string, advMode string) (bool, interface{}) {
 	}
 	if w.Failed() {
 		return true, nil
+	}
+	if advMode == "c15" {
+		// "every result the airgapped machine can produce survives the way back": the
+		// one result that carries ExtraData is the answer to the reinit operation; what
+		// the node retains afterwards must be what the result file carried
+		judgedC15 := 0
+		for k, idx := range newIdx {
+			for id, body := range c2.Ops[k].results {
+				var ro types.Operation
+				if json.Unmarshal(body, &ro) != nil || string(ro.Type) != string(types.ReinitDKG) {
+					continue
+				}
+				judgedC15++
+				d := w.Nodes[idx].Dump(round)
+				if d == nil || d.Payload.DKGProposalPayload == nil {
+					w.Fail("C15", "reinit-result-lost/round-missing", fmt.Sprintf("node %d has no round after its reinit result %s was accepted", idx, id))
+					break
+				}
+				if !bytes.Equal(d.Payload.DKGProposalPayload.PubPolyBz, ro.ExtraData) {
+					w.Fail("C15", "result-field-lost-on-the-way-back/ExtraData", fmt.Sprintf("node %d accepted the result of its reinit operation; the file carried %d bytes of ExtraData, the node retains %d bytes", idx, len(ro.ExtraData), len(d.Payload.DKGProposalPayload.PubPolyBz)))
+					break
+				}
+			}
+		}
+		return judgedC15 > 0, map[string]interface{}{"n": n, "t": t, "adv": advMode, "reinit_results_judged": judgedC15}
 	}
 	if advMode == "c02" {
 		// "whenever a round reaches the signing-ready state on any node": also when it
@@ -475,6 +509,7 @@ func init() {
 	Register(&Scenario{Prop: "C09", Name: "C09-reinit", Run: func(w *World, tier string) (bool, interface{}) { return runC20(w, tier, "c09") }})
 	Register(&Scenario{Prop: "C10", Name: "C10-reinit", Run: func(w *World, tier string) (bool, interface{}) { return runC20(w, tier, "c10") }})
 	Register(&Scenario{Prop: "C14", Name: "C14-reinit", Run: func(w *World, tier string) (bool, interface{}) { return runC20(w, tier, "c14") }})
+	Register(&Scenario{Prop: "C15", Name: "C15-reinit", Run: func(w *World, tier string) (bool, interface{}) { return runC20(w, tier, "c15") }})
 	Register(&Scenario{Prop: "C02", Name: "C02-reinit", Run: func(w *World, tier string) (bool, interface{}) { return runC20(w, tier, "c02") }})
 	Register(&Scenario{Prop: "C04", Name: "C04-reinit", Run: func(w *World, tier string) (bool, interface{}) { return runC20(w, tier, "c04") }})
 }
